@@ -50,6 +50,8 @@ func (b *zvqDirectWait) Request(code byte, _ *mrand.Rand) (pan bool, err error) 
 
 func (b *zvqDirectWait) Counts() (int, [][2]int, error) { return verifh.CondCounts(b.s) }
 
+func (b *zvqDirectWait) CondServer() interface{} { return b.s }
+
 func (b *zvqDirectWait) Release() {
 	for c := 0; c < 256; c++ {
 		func() {
